@@ -116,6 +116,10 @@ class Repo:
         """See engine/normalize.py: undo private renames, inline new private helpers, rewrite `a if c else b` statements."""
         from . import normalize
         inv = normalize.load_inventory()
+        cinv = normalize.load_constant_inventory()
+        if cinv is not None:
+            normalize.fold_new_constants(self.modules, cinv, self.norm_log)
+        normalize.expand_local_predicates(self.modules, self.norm_log)
         normalize.unroll_constant_loops(self.modules, self.norm_log)
         normalize.desugar_ifexp(self.modules)
         normalize.decision_tables(self.modules, self.norm_log)
@@ -124,6 +128,9 @@ class Repo:
         if inv is not None:
             normalize.apply_renames(self.modules, normalize.plan_renames(self.modules, inv), self.norm_log)
         self._index()
+        kwc = normalize.load_keyword_callees()
+        if kwc is not None:
+            normalize.keywords_to_positional(self, kwc, self.norm_log)
         if inv is not None:
             for _ in range(3):
                 if not normalize.inline_new_helpers(self, inv, self.norm_log):
